@@ -131,6 +131,18 @@ struct EqRetBoolLike { friend BoolLike operator==(EqRetBoolLike const&, EqRetBoo
 struct EqNonConst { bool operator==(EqNonConst const&); bool operator!=(EqNonConst const&); };
 struct EqNoDefault { EqNoDefault(int); friend bool operator==(EqNoDefault const&, EqNoDefault const&); };
 struct SwapOneWay { friend void swap(SwapOneWay&, int&); };
+struct ExplicitMutableDeleted { ExplicitMutableDeleted(); ExplicitMutableDeleted(ExplicitMutableDeleted const&); ExplicitMutableDeleted(ExplicitMutableDeleted&&); explicit ExplicitMutableDeleted(ExplicitMutableDeleted&) = delete; };
+struct ImplicitMutableDeleted { ImplicitMutableDeleted(); ImplicitMutableDeleted(ImplicitMutableDeleted const&); ImplicitMutableDeleted(ImplicitMutableDeleted&&); explicit ImplicitMutableDeleted(ImplicitMutableDeleted&); template <class U> ImplicitMutableDeleted(U&) = delete; };
+struct ExplicitConstCopyDeleted { ExplicitConstCopyDeleted(); explicit ExplicitConstCopyDeleted(ExplicitConstCopyDeleted const&) = delete; template <class U> ExplicitConstCopyDeleted(U const&); ExplicitConstCopyDeleted(ExplicitConstCopyDeleted&); ExplicitConstCopyDeleted(ExplicitConstCopyDeleted&&); ExplicitConstCopyDeleted(ExplicitConstCopyDeleted const&&); };
+struct ExplicitConstCopy { ExplicitConstCopy(); explicit ExplicitConstCopy(ExplicitConstCopy const&); ExplicitConstCopy(ExplicitConstCopy&); ExplicitConstCopy(ExplicitConstCopy&&); ExplicitConstCopy(ExplicitConstCopy const&&); };
+struct ExplicitConstRvalueDeleted { ExplicitConstRvalueDeleted(); ExplicitConstRvalueDeleted(ExplicitConstRvalueDeleted const&); ExplicitConstRvalueDeleted(ExplicitConstRvalueDeleted&&); explicit ExplicitConstRvalueDeleted(ExplicitConstRvalueDeleted const&&) = delete; };
+struct ImplicitConstRvalueDeleted { ImplicitConstRvalueDeleted(); ImplicitConstRvalueDeleted(ImplicitConstRvalueDeleted const&); ImplicitConstRvalueDeleted(ImplicitConstRvalueDeleted&&); explicit ImplicitConstRvalueDeleted(ImplicitConstRvalueDeleted const&&); template <class U> ImplicitConstRvalueDeleted(U const&&) = delete; };
+struct AssignableNotCopyCtor { AssignableNotCopyCtor(); AssignableNotCopyCtor(AssignableNotCopyCtor const&) = delete; AssignableNotCopyCtor(AssignableNotCopyCtor&&); AssignableNotCopyCtor& operator=(AssignableNotCopyCtor const&); AssignableNotCopyCtor& operator=(AssignableNotCopyCtor&&); };
+struct NoAssignConstLvalue { NoAssignConstLvalue() = default; NoAssignConstLvalue(NoAssignConstLvalue const&) = default; NoAssignConstLvalue& operator=(NoAssignConstLvalue&); NoAssignConstLvalue& operator=(NoAssignConstLvalue const&) = delete; NoAssignConstLvalue& operator=(NoAssignConstLvalue&&); NoAssignConstLvalue& operator=(NoAssignConstLvalue const&&); };
+struct NoMoveAssignAdlSwap { NoMoveAssignAdlSwap() = default; NoMoveAssignAdlSwap(NoMoveAssignAdlSwap&&) = default; NoMoveAssignAdlSwap& operator=(NoMoveAssignAdlSwap&&) = delete; friend void swap(NoMoveAssignAdlSwap&, NoMoveAssignAdlSwap&) noexcept; };
+struct NeOnly { friend bool operator!=(NeOnly const&, NeOnly const&); };
+struct EqRetExplicitNeBool { friend ExplicitBool operator==(EqRetExplicitNeBool const&, EqRetExplicitNeBool const&); friend bool operator!=(EqRetExplicitNeBool const&, EqRetExplicitNeBool const&); };
+struct EqBoolNeRetExplicit { friend bool operator==(EqBoolNeRetExplicit const&, EqBoolNeRetExplicit const&); friend ExplicitBool operator!=(EqBoolNeRetExplicit const&, EqBoolNeRetExplicit const&); };
 // ---- callable family with deliberately partial / asymmetric overload sets and qualifiers (parts k0, k1)
 struct KA { };
 struct KB { };
@@ -237,7 +249,13 @@ CLASSES.update({
     "AggExplicitMember": "explicit_default_class", "Ambiguous": "ambiguous_base_class", "EqNoNe": "comparable_class",
     "ExplicitBool": "converting_class", "BoolLike": "converting_class", "BoolNoNot": "converting_class",
     "EqRetExplicit": "comparable_class", "EqRetBoolLike": "comparable_class", "EqNonConst": "comparable_class",
-    "EqNoDefault": "comparable_class", "SwapOneWay": "adl_swap_class", "KA": "empty_class", "KB": "empty_class", "Key": "comparable_class",
+    "EqNoDefault": "comparable_class", "SwapOneWay": "adl_swap_class",
+    "ExplicitMutableDeleted": "partial_copy_class", "ImplicitMutableDeleted": "partial_copy_class",
+    "ExplicitConstCopyDeleted": "partial_copy_class", "ExplicitConstCopy": "explicit_copy_class",
+    "ExplicitConstRvalueDeleted": "partial_copy_class", "ImplicitConstRvalueDeleted": "partial_copy_class",
+    "AssignableNotCopyCtor": "partial_copy_class", "NoAssignConstLvalue": "partial_assign_class",
+    "NoMoveAssignAdlSwap": "partial_assign_class", "NeOnly": "comparable_class", "EqRetExplicitNeBool": "comparable_class",
+    "EqBoolNeRetExplicit": "comparable_class", "KA": "empty_class", "KB": "empty_class", "Key": "comparable_class",
 })
 for c, cl in CLASSES.items():
     B("z::" + c, "class", cl, abstract=c in ("Abstract", "AbstractPD"), trivial_kind=(c == "Agg"),
